@@ -4,6 +4,7 @@ package explore
 
 import (
 	"fmt"
+	"os"
 	"time"
 
 	"github.com/KevoDB/kevo/pkg/zzverif/vsched"
@@ -40,6 +41,7 @@ type Stats struct {
 	Executions  int            `json:"executions"`
 	Complete    int            `json:"complete_executions"`
 	Cached      int            `json:"cut_by_hb_cache"`
+	Skipped     int            `json:"skipped_by_post_state_prediction"`
 	Points      int            `json:"decision_points"`
 	Steps       int            `json:"steps"`
 	States      int            `json:"hb_states"`
@@ -64,6 +66,8 @@ type Options struct {
 	MaxViol  int
 	StopAtFirst bool
 }
+
+var noPredict = os.Getenv("VERIF_NOPREDICT") != ""
 
 type explorer struct {
 	sc    *Scenario
@@ -105,8 +109,11 @@ func Explore(sc *Scenario, opt Options) *Stats {
 	if opt.Shard == 0 {
 		a, ao := RunOnce(sc, nil, opt.Bound, nil, true)
 		b, bo := RunOnce(sc, nil, opt.Bound, nil, true)
-		ka, _ := sc.Check(a, ao)
-		kb, _ := sc.Check(b, bo)
+		ka, kb := a.Out.String(), b.Out.String()
+		if a.Out == vsched.OK && b.Out == vsched.OK {
+			ka, _ = sc.Check(a, ao)
+			kb, _ = sc.Check(b, bo)
+		}
 		st.ReplayOK = ka == kb && fmt.Sprint(a.Choices) == fmt.Sprint(b.Choices) && fmt.Sprint(a.Trace) == fmt.Sprint(b.Trace)
 		if len(a.Trace) > 60 {
 			st.Sample = append(a.Trace[:30:30], a.Trace[len(a.Trace)-30:]...)
@@ -167,6 +174,16 @@ func (e *explorer) explore(prefix []int, depth int) {
 		for c := 1; c < p.N; c++ {
 			if e.opt.Bound >= 0 && p.CumCost+p.Costs[c] > e.opt.Bound {
 				continue
+			}
+			if e.cache != nil && c < len(p.PostKeys) && !noPredict {
+				rem := 1 << 20
+				if e.opt.Bound >= 0 {
+					rem = e.opt.Bound - (p.CumCost + p.Costs[c])
+				}
+				if e.cache.PostSeen(p.PostKeys[c], rem) {
+					e.st.Skipped++
+					continue
+				}
 			}
 			if depth == 0 {
 				// level-1 subtree: sharding unit
@@ -233,6 +250,7 @@ func Merge(a, b *Stats) {
 	a.Executions += b.Executions
 	a.Complete += b.Complete
 	a.Cached += b.Cached
+	a.Skipped += b.Skipped
 	a.Points += b.Points
 	a.Steps += b.Steps
 	a.States += b.States
